@@ -248,4 +248,3 @@ func sortedParamKeys(m map[string]string) []string {
 	sortStrings(l)
 	return l
 }
-
